@@ -171,3 +171,136 @@ Proof.
     cbn [cs nbi nbo noi noo hb_in hb_out]; rewrite ?Bool.orb_false_r, ?Bool.orb_true_r;
     repeat split; try reflexivity; try lia; cbn [negb]; lia.
 Qed.
+
+Definition ex_small (out : bool) (ps : list mparam) : bool :=
+  existsb (fun p => Bool.eqb (mp_out p) out && bundleable p) ps.
+
+Lemma count_params_spec ps : forall s s',
+  count_params Debug s ps = Ok s' ->
+  nbi (cs s') = nbi (cs s) + msum (fun p => dirn false p (buf_inc p)) ps /\
+  nbo (cs s') = nbo (cs s) + msum (fun p => dirn true p (buf_inc p)) ps /\
+  noi (cs s') = noi (cs s) + msum (fun p => dirn false p (obj_inc p)) ps /\
+  noo (cs s') = noo (cs s) + msum (fun p => dirn true p (obj_inc p)) ps /\
+  hb_in s' = (hb_in s || ex_small false ps) /\
+  hb_out s' = (hb_out s || ex_small true ps).
+Proof.
+  induction ps as [|p ps IH]; intros s s' H; cbn [count_params] in H.
+  - inversion H; subst. rewrite !msum_nil. unfold ex_small. cbn [existsb]. rewrite !Bool.orb_false_r.
+    repeat split; lia.
+  - destruct (count_param Debug s p) as [s1| | |] eqn:E; cbn [obind] in H; try discriminate.
+    apply count_param_spec in E. destruct E as (E1 & E2 & E3 & E4 & E5 & E6).
+    apply IH in H. destruct H as (H1 & H2 & H3 & H4 & H5 & H6).
+    rewrite !msum_cons. unfold ex_small in *. cbn [existsb].
+    rewrite H1, H2, H3, H4, H5, H6, E1, E2, E3, E4, E5, E6.
+    assert (B1 : (negb (mp_out p) && bundleable p) = (Bool.eqb (mp_out p) false && bundleable p)) by (destruct (mp_out p); reflexivity).
+    assert (B2 : (mp_out p && bundleable p) = (Bool.eqb (mp_out p) true && bundleable p)) by (destruct (mp_out p); reflexivity).
+    rewrite B1, B2, !Bool.orb_assoc. repeat split; lia.
+Qed.
+
+(* the counts word, in closed form *)
+Theorem counter_closed ps c :
+  counter Debug ps = Ok c ->
+  nbi c = msum (fun p => dirn false p (buf_inc p)) ps + (if ex_small false ps then 1 else 0) /\
+  nbo c = msum (fun p => dirn true p (buf_inc p)) ps + (if ex_small true ps then 1 else 0) /\
+  noi c = msum (fun p => dirn false p (obj_inc p)) ps /\
+  noo c = msum (fun p => dirn true p (obj_inc p)) ps.
+Proof.
+  unfold counter. intro H.
+  destruct (count_params Debug _ ps) as [s| | |] eqn:E; cbn [obind] in H; try discriminate.
+  apply count_params_spec in E. cbn [cs nbi nbo noi noo hb_in hb_out orb] in E.
+  destruct E as (E1 & E2 & E3 & E4 & E5 & E6).
+  u8. cbn [nbi nbo noi noo]. rewrite E1, E2, E3, E4, E5, E6. repeat split; lia.
+Qed.
+
+(* ---- multiplicities of one parameter's slots ---- *)
+Definition obj_all (p : mparam) : N :=
+  match mp_ty p, mp_shape p with
+  | MIface _, PVal => 1
+  | MIface _, PArr (Some k) => k
+  | MStruct _ _, PVal => n_objs (mp_ty p)
+  | _, _ => 0
+  end.
+
+Lemma mult_repeat k o n : mult k (map skind_code (repeat_k o n)) = if k =? skind_code o then n else 0.
+Proof.
+  unfold repeat_k. rewrite <- (N2Nat.id n) at 2. induction (N.to_nat n) as [|m IH]; cbn [repeat map].
+  - destruct (k =? skind_code o); reflexivity.
+  - rewrite mult_cons, IH. destruct (k =? skind_code o); lia.
+Qed.
+
+Lemma mult_psecs p :
+  mult 0 (psecs p) = dirn false p (if p_iface p then 0 else 1) /\
+  mult 1 (psecs p) = dirn true p (if p_iface p then 0 else 1) /\
+  mult 2 (psecs p) = dirn false p (obj_all p) /\
+  mult 3 (psecs p) = dirn true p (obj_all p).
+Proof.
+  destruct p as [o t sh nm]. unfold psecs, param_slots, dirn, obj_all, p_iface.
+  cbn [mp_out mp_ty mp_shape].
+  destruct sh as [|cnt]; destruct t as [|q|n|sn fs]; destruct o; cbn [is_miface Bool.eqb map];
+    try destruct cnt as [c|];
+    rewrite ?mult_cons, ?mult_repeat; cbn [skind_code]; unfold mult; cbn [filter List.length map];
+    repeat split; try reflexivity; try lia.
+Qed.
+
+(* ---- the theorem ---- *)
+Definition small_structs_carry_no_objects (ps : list mparam) : Prop :=
+  forall p, In p ps -> is_small_struct_value p = true -> n_objs (mp_ty p) = 0.
+
+Lemma ex_small_count out ps :
+  ex_small out ps = (0 <? N.of_nat (List.length (filter (fun p => Bool.eqb (mp_out p) out && bundleable p) ps))).
+Proof.
+  unfold ex_small. induction ps as [|p ps IH]; [reflexivity|].
+  cbn [existsb filter]. destruct (Bool.eqb (mp_out p) out && bundleable p); cbn [orb List.length]; [|exact IH].
+  symmetry. apply N.ltb_lt. lia.
+Qed.
+
+Lemma packed_count out ps :
+  N.of_nat (List.length (packed out ps)) =
+  N.of_nat (List.length (filter (fun p => Bool.eqb (mp_out p) out && bundleable p) ps)).
+Proof. f_equal. apply Permutation_length. apply packed_members. Qed.
+
+Lemma small_count_msum out ps :
+  N.of_nat (List.length (filter (fun p => Bool.eqb (mp_out p) out && bundleable p) ps)) =
+  msum (fun p => dirn out p (if bundleable p then 1 else 0)) ps.
+Proof.
+  rewrite <- msum_indicator. apply msum_ext. intros p _. unfold dirn.
+  destruct (Bool.eqb (mp_out p) out), (bundleable p); reflexivity.
+Qed.
+
+Lemma keep_in ps p : mp_out p = false -> keep ps p = negb (bi_of ps && bundleable p).
+Proof. intro H. unfold keep, F1, F2. rewrite H. destruct (bi_of ps), (bo_of ps), (bundleable p); reflexivity. Qed.
+Lemma keep_out ps p : mp_out p = true -> keep ps p = negb (bo_of ps && bundleable p).
+Proof. intro H. unfold keep, F1, F2. rewrite H. destruct (bi_of ps), (bo_of ps), (bundleable p); reflexivity. Qed.
+
+Lemma bundleable_not_iface p : bundleable p = true -> p_iface p = false.
+Proof. apply bundleable_rank. Qed.
+
+(* buffers of one direction *)
+Lemma buffers_side (out : bool) ps (b : bool) :
+  b = (if out then bo_of ps else bi_of ps) ->
+  (forall p, Bool.eqb (mp_out p) out = true -> keep ps p = negb (b && bundleable p)) ->
+  (if b then 1 else 0) +
+  msum (fun p => if keep ps p then dirn out p (if p_iface p then 0 else 1) else 0) ps =
+  msum (fun p => dirn out p (buf_inc p)) ps + (if ex_small out ps then 1 else 0).
+Proof.
+  intros Hb Hk.
+  assert (E : msum (fun p => if keep ps p then dirn out p (if p_iface p then 0 else 1) else 0) ps =
+              msum (fun p => dirn out p (buf_inc p) + (if b then 0 else dirn out p (if bundleable p then 1 else 0))) ps).
+  { apply msum_ext. intros p _. unfold dirn, buf_inc.
+    destruct (Bool.eqb (mp_out p) out) eqn:Ed; [|destruct (keep ps p), b; reflexivity].
+    rewrite (Hk p Ed).
+    destruct (bundleable p) eqn:Eb.
+    - rewrite (bundleable_not_iface p Eb). destruct b; reflexivity.
+    - rewrite Bool.andb_false_r. cbn [negb andb]. destruct (p_iface p), b; reflexivity. }
+  rewrite E, msum_plus.
+  assert (S : msum (fun p => if b then 0 else dirn out p (if bundleable p then 1 else 0)) ps =
+              if b then 0 else msum (fun p => dirn out p (if bundleable p then 1 else 0)) ps).
+  { destruct b; [|reflexivity]. clear. induction ps as [|x l IH]; [reflexivity|]. rewrite msum_cons, IH. reflexivity. }
+  rewrite S, <- small_count_msum, ex_small_count.
+  set (n := N.of_nat (List.length (filter (fun p => Bool.eqb (mp_out p) out && bundleable p) ps))).
+  assert (Hn : b = (1 <? n)).
+  { rewrite Hb. unfold n. rewrite <- packed_count. destruct out; reflexivity. }
+  rewrite Hn. destruct (1 <? n) eqn:E1.
+  - apply N.ltb_lt in E1. assert (0 <? n = true) by (apply N.ltb_lt; lia). rewrite H. lia.
+  - apply N.ltb_ge in E1. destruct (0 <? n) eqn:E0; [apply N.ltb_lt in E0 | apply N.ltb_ge in E0]; lia.
+Qed.
